@@ -195,4 +195,17 @@ void h_len_boundary(void) {
   vk_assert((gotf == 0) == (wantf == ref::VALID), "length boundary: validate_topic_filter");
   free(p);
 }
+// length boundary of $share filters: the 65535 limit applies to the whole string, prefix included
+void h_len_shared(void) {
+  static const size_t lens[] = {65535, 65536, 65542, 65543};
+  size_t n = lens[vk_choose(4)]; uint8_t* p = static_cast<uint8_t*>(malloc(n));
+  for (size_t i = 0; i < n; i++) p[i] = 'a';
+  static const char pfx[] = "$share/g/"; for (size_t i = 0; i < 9; i++) p[i] = (uint8_t)pfx[i];
+  bool wild = vk_choose(2) != 0;
+  int got = (int)validate_shared_topic_filter(sv(p, n), wild); int want = ref::shared_filter(p, n, wild);
+  vk_event(9, got);
+  if (want == ref::VALID) vk_reach("accept"); else vk_reach("reject");
+  vk_assert((got == 0) == (want == ref::VALID), "length boundary: validate_shared_topic_filter (the limit of 65535 bytes covers the whole filter)");
+  free(p);
+}
 }
